@@ -405,6 +405,45 @@ func rulesC13(c *Ctx) {
 		// and jsonrpc2 honours the mark (R-C13-4 checks the guard itself)
 	})
 
+	c.Rule("R-C13-6", "the two classifications keep-alive relies on are what they say: a peer's error is 'method not found' by its code alone (whatever data it carries), and the HTTP statuses that count as a transient miss are 500, 502, 503, 504 and 429", func() {
+		is := c.Fn(pJ, "WireError", "Is")
+		codeF := c.Field(pJ, "WireError", "Code")
+		okIs := false
+		for _, r := range is.Returns() {
+			if len(r.Results) != 1 || exprStr(r.Results[0]) == "false" {
+				continue
+			}
+			x, y, op, isCmp := binaryCmp(r.Results[0])
+			okIs = isCmp && op == token.EQL && is.IsField(x, codeF) && is.IsField(y, codeF)
+		}
+		c.Check(okIs, "WireError.Is:codes-only", is, nil, "(*WireError).Is answers with a single comparison of the two codes: errors.Is(err, ErrMethodNotFound) must hold for any -32601 reply, also one with an error.data member")
+		tr := c.Fn(pM, "", "isTransientHTTPStatus")
+		got := map[int64]bool{}
+		inspectNoLit(tr.Body, func(n ast.Node) {
+			cc, ok := n.(*ast.CaseClause)
+			if !ok {
+				return
+			}
+			trueCase := false
+			for _, st := range cc.Body {
+				if r, isR := st.(*ast.ReturnStmt); isR && len(r.Results) == 1 && exprStr(r.Results[0]) == "true" {
+					trueCase = true
+				}
+			}
+			if trueCase {
+				for _, e := range cc.List {
+					if v, isC := tr.ConstInt(e); isC {
+						got[v] = true
+					}
+				}
+			}
+		})
+		for _, st := range []int64{500, 502, 503, 504, 429} {
+			c.Check(got[st], "isTransientHTTPStatus:"+itoa(int(st)), tr, nil, "HTTP %d on a POST is a per-message rejection (one missed ping), not the end of the session", st)
+		}
+		c.Check(len(got) == 5, "isTransientHTTPStatus:nothing-else", tr, nil, "exactly these five statuses are transient (%d found)", len(got))
+	})
+
 	c.Rule("R-C13-4", "a ping whose write times out does not poison the connection (shared with R-C04-6): later pings still reach the peer, so a live peer is not closed after one miss", func() { ruleWriteErrGuard(c) })
 }
 
